@@ -130,7 +130,7 @@ def isAsciiStr (s : Str) : Bool := s.all (· < 128)
 def spartanShape (line : Str) : Bool :=
   isAsciiStr line &&
     (match splitOn 32 (strip line) with
-     | [a, b, n] => !a.isEmpty && !b.isEmpty && !n.isEmpty && n.all isAsciiDigit
+     | [a, b, n] => !a.isEmpty && b.head? == some 47 && !n.isEmpty && n.all isAsciiDigit   -- host, absolute path, length
      | _ => false)
 
 /-- `canhandlerequest` of each class (after the F1 repair no branch raises) -/
